@@ -5,6 +5,7 @@ CONSTANTS
     MaxAlter = 1
     TamperFields = {"resign", "prev", "nextAvk", "nextParams"}
     MsgModes = {"r"}
+    Twins = TRUE
     ForgeEpochs = {2, 3, 4}
     Forge2Pars = {"q"}
     ForgeKeys = {"A", "H4"}
